@@ -169,7 +169,7 @@ def run(ctx, chk):
     forward_reference_record(ctx, chk)
     no_label_in_expansion(ctx, chk)
     # ---- R3 driver gates
-    drv = ctx.program.by_name.get(("bin", "driver::driver::CMDDriver::run"))
+    drv = ctx.program.find("bin", "driver::driver::CMDDriver::run")
     if drv is None:
         chk.undecided_("C14.R3", "CMDDriver::run", "driver not found")
     else:
@@ -291,7 +291,7 @@ def run(ctx, chk):
             chk.violation("C14.R3", "CMDDriver::run", "start-type-unchecked", "a data label named start is not rejected before execution", drv["span"])
 
     # ---- R4 preprocess
-    pp = ctx.program.by_name.get(("bin", "driver::preprocess::preprocess"))
+    pp = ctx.program.find("bin", "driver::preprocess::preprocess")
     if pp is None:
         chk.undecided_("C14.R4", "preprocess", "function not found")
     else:
@@ -326,7 +326,7 @@ def forward_reference_record(ctx, chk):
     the label undefined must insert into the record."""
     import re
     P = ctx.program
-    adt = P.adts.get("util::preprocessor_util::Context")
+    adt = P.find_adt("util::preprocessor_util::Context")
     fty = dict(adt["variants"][0]["fields"]).get("undefined_labels") if adt else None
     where = "src/lib/util/preprocessor_util.rs"
     if fty is None:
@@ -480,7 +480,7 @@ def no_label_in_expansion(ctx, chk):
                         if any(part[0] == "hole" and part[1] in ("unknown", "replaced") for part in t):
                             chk.undecided_("C14.R6", GA.prod_label("general_string", k), "argument text not followed by the action evaluator")
     # does the driver test the type of a forward-referenced label?
-    drv = ctx.program.by_name.get(("bin", "driver::driver::CMDDriver::run"))
+    drv = ctx.program.find("bin", "driver::driver::CMDDriver::run")
     types_checked = False
     if drv is not None:
         from cfgtools import Defs, origin
